@@ -230,6 +230,34 @@ got = sorted(set((x["message"], x["line"], x["column"]) for x in msgs))
 return got == sorted(set(exp))
 '''
 
+COUNT = '''
+# the same fault in several objects gives one message per faulty keyword / object (dictionaries without position data,
+# as returned by a plain loads or create): nothing is merged or dropped
+c = CI(CI); c["__type__"] = "class"; c["name"] = "n"
+styles = []
+for i in range(3):
+    st = CI(CI); st["__type__"] = "style"; st["width"] = 1
+    styles.append(st)
+c["styles"] = styles
+n_exp = 0
+if f0:
+    styles[0]["width"] = w; n_exp += 1 if w < 0 else 0
+if f1:
+    styles[1]["width"] = w; n_exp += 1 if w < 0 else 0
+if f2:
+    styles[2]["width"] = w; n_exp += 1 if w < 0 else 0
+if u0:
+    styles[0]["zzunknown"] = 1; n_exp += 1
+if u2:
+    styles[2]["zzunknown"] = 1; n_exp += 1
+msgs = V.validate(c, schema_name="class")
+n_w = len([m for m in msgs if m["message"] == "ERROR: Invalid value in WIDTH"])
+n_s = len([m for m in msgs if m["message"] == "ERROR: Invalid value in STYLE"])
+exp_w = (1 if f0 and w < 0 else 0) + (1 if f1 and w < 0 else 0) + (1 if f2 and w < 0 else 0)
+exp_s = (1 if u0 else 0) + (1 if u2 else 0)
+return n_w == exp_w and n_s == exp_s and len(msgs) == exp_w + exp_s
+'''
+
 INFO = {
     "explanation": "C07: real Validator.validate / _get_errors / create_message / convert_lowercase + real jsonschema on documents with "
                    "symbolic leaves; expected verdict and message names from a Draft-04 reference evaluator applied to the keyword's own "
@@ -362,6 +390,10 @@ def obligations(tier, seed):
     src = p0 + harness("h", [("a", "int"), ("withver", "bool")], "", "ver = 7.6\n" + LISTROOT)
     obs.append(Ob(name="C07-LISTROOT", source=src, pct=600, timeout=700, meta={"desc": "validate([d1, d2]) == validate(d1) + validate(d2)", "functions": ["mappyfile.utils.validate"]}))
     p0 = PRELUDE % dict(type="class", keys=[], reqvals={})
+    src = p0 + harness("h", [("f0", "bool"), ("f1", "bool"), ("f2", "bool"), ("u0", "bool"), ("u2", "bool"), ("w", "int")], "(w > -3) & (w < 2)", COUNT)
+    obs.append(Ob(name="C07-COUNT/same-fault", source=src, pct=900, timeout=1000,
+                  meta={"desc": "the same value fault / unknown keyword in up to three list items without position data: exactly one message per faulty keyword and per faulty object",
+                        "functions": ["Validator.validate", "Validator.get_error_messages"]}))
     for i1 in range(3):
         src = p0 + harness("h", [("f1", "bool"), ("f2", "bool"), ("f3", "bool"), ("f4", "bool"), ("i1", "int"), ("i2", "int"), ("w", "int")],
                            f"(i1 == {i1}) & (i2 >= 0) & (i2 < 3) & (w > -4) & (w < 4)", DEEP)
